@@ -33,13 +33,17 @@ Definition dict_of {K V} (eqb : K -> K -> bool) (pairs : list (K * V)) : list (K
 
 (* ------------------------------------------------------------------ Python's == between two distinct node objects *)
 
-(* LeafNode: the wrapped objects are ==; CyclicReference: the two IdentityHash wrappers are the same object
-   (never, for two distinct nodes); SequenceNode: same container type with == children (tuple in order,
-   HashableCounter as multiset, dict by key); KeyValuePairNode: key and value ==; PyObj: identity.
+(* LeafNode: the wrapped objects are ==; CyclicReference: the two IdentityHash wrappers are == , i.e. they
+   wrap the very same object (a wrapper of a wrapper - depth > 0, which the current copy_from no longer
+   produces - is a fresh object and equals nothing); SequenceNode: same container type with == children
+   (tuple in order, HashableCounter as multiset, dict by key); KeyValuePairNode: key and value ==;
+   PyObj: class_name == and attrs ==.
    Comparisons across container types only succeed for empty containers and never arise between keys. *)
 Fixpoint tree_pyeq (a b : tree) {struct a} : bool :=
   match a, b with
   | TLeaf _ s1, TLeaf _ s2 => scalar_pyeq s1 s2
+  | TCyc d1 i1, TCyc d2 i2 => Nat.eqb d1 0 && Nat.eqb d2 0 && Z.eqb i1 i2
+  | TObj n1 m1, TObj n2 m2 => tree_pyeq n1 n2 && tree_pyeq m1 m2
   | TList l1, TList l2 =>
       (fix go (l1 l2 : list tree) {struct l1} : bool :=
          match l1, l2 with
@@ -353,7 +357,7 @@ Fixpoint to_obj (t : tree) : res pyval :=
 Fixpoint copy (t : tree) : tree :=
   match t with
   | TLeaf k s => TLeaf k s                               (* self.__class__(self.object) / NullNode() *)
-  | TCyc d i => TCyc (S d) i                             (* CyclicReference(self.object): wrapped once more *)
+  | TCyc d i => TCyc d i                                 (* CyclicReference(self.object.obj): unwrap, wrap again *)
   | TList l => TList (map copy l)
   | TMSet l => TMSet (map copy l)
   | TDict a kvs => TDict a (map (fun kv => (copy (fst kv), copy (snd kv))) kvs)
